@@ -1755,14 +1755,16 @@ static void vbi_proxyd_close( PROXY_CLNT * req, vbi_bool close_all )
 
       pthread_mutex_lock(&proxy.dev[req->dev_idx].queue_mutex);
 
+      /* change the state inside the critical section, else the acquisition
+      ** thread could still assign a new buffer to this client afterwards */
+      req->state = REQ_STATE_CLOSED;
+
       while (req->p_sliced != NULL)
       {
          vbi_proxy_queue_release_sliced(req);
       }
 
       pthread_mutex_unlock(&proxy.dev[req->dev_idx].queue_mutex);
-
-      req->state = REQ_STATE_CLOSED;
    }
 }
 
